@@ -115,6 +115,93 @@ func timeWorldEval(info *types.Info, cond ast.Expr, age int64) (bool, bool) {
 	return constant.BoolVal(v), true
 }
 
+// timeWorldEvalPartial evaluates cond in the stale (wantStale) or fresh world. Atoms the time model cannot
+// evaluate (`ok`, `!closed`) are tried with both truth values; an assignment is usable if it makes cond differ
+// between the two worlds; all usable assignments must agree.
+func timeWorldEvalPartial(info *types.Info, cond ast.Expr, staleAge, freshAge int64, wantStale bool) (bool, bool) {
+	age := freshAge
+	if wantStale {
+		age = staleAge
+	}
+	if v, ok := timeWorldEval(info, cond, age); ok {
+		return v, true
+	}
+	// collect unknown atoms
+	var atoms []ast.Expr
+	var collect func(e ast.Expr)
+	collect = func(e ast.Expr) {
+		e = ast.Unparen(e)
+		switch x := e.(type) {
+		case *ast.UnaryExpr:
+			if x.Op == token.NOT {
+				collect(x.X)
+				return
+			}
+		case *ast.BinaryExpr:
+			if x.Op == token.LAND || x.Op == token.LOR {
+				collect(x.X)
+				collect(x.Y)
+				return
+			}
+		}
+		if _, ok := timeWorldEval(info, e, age); !ok {
+			atoms = append(atoms, e)
+		}
+	}
+	collect(cond)
+	if len(atoms) == 0 || len(atoms) > 3 {
+		return false, false
+	}
+	var eval func(e ast.Expr, asg map[ast.Expr]bool, age int64) (bool, bool)
+	eval = func(e ast.Expr, asg map[ast.Expr]bool, age int64) (bool, bool) {
+		e = ast.Unparen(e)
+		if v, ok := asg[e]; ok {
+			return v, true
+		}
+		switch x := e.(type) {
+		case *ast.UnaryExpr:
+			if x.Op == token.NOT {
+				v, ok := eval(x.X, asg, age)
+				return !v, ok
+			}
+		case *ast.BinaryExpr:
+			if x.Op == token.LAND || x.Op == token.LOR {
+				a, ok1 := eval(x.X, asg, age)
+				b, ok2 := eval(x.Y, asg, age)
+				if !ok1 || !ok2 {
+					return false, false
+				}
+				if x.Op == token.LAND {
+					return a && b, true
+				}
+				return a || b, true
+			}
+		}
+		return timeWorldEval(info, e, age)
+	}
+	res, have := false, false
+	for m := 0; m < 1<<len(atoms); m++ {
+		asg := map[ast.Expr]bool{}
+		for i, a := range atoms {
+			asg[ast.Unparen(a)] = m&(1<<i) != 0
+		}
+		vs, ok1 := eval(cond, asg, staleAge)
+		vf, ok2 := eval(cond, asg, freshAge)
+		if !ok1 || !ok2 || vs == vf {
+			continue
+		}
+		v := vf
+		if wantStale {
+			v = vs
+		}
+		if have && v != res {
+			return false, false
+		}
+		res, have = v, true
+	}
+	return res, have
+}
+
 func containsFold(s, sub string) bool {
 	ls, lsub := []byte(s), []byte(sub)
 	for i := range ls {
@@ -515,12 +602,47 @@ func checkC19(c *Check) {
 		c.Hold("R3", "Get:lifetime", r.FI.Decl.Pos(), msg == "", msg)
 	}
 	// bucket staleness comparisons in all pool functions: in the stale world the bucket is evicted, in the fresh world kept
+	namedDir := map[types.Object]*struct {
+		key        string
+		pos        token.Pos
+		evicts, no bool
+	}{}
+	var namedOrder []types.Object
+	defer func() {
+		for _, o := range namedOrder {
+			g := namedDir[o]
+			c.Hold("R3", g.key, g.pos, g.evicts && !g.no, "staleness comparison has the wrong direction: the stale bucket is kept and/or the fresh one is evicted")
+		}
+	}()
 	for _, fi := range funcs {
 		r := &RuleCtx{C: c, FI: fi, F: p.FlowOfFunc(fi), Info: info}
 		for _, b := range r.F.G.Blocks {
 			cond, isCase := r.F.Cond(b)
 			if cond == nil || isCase || !b.Live {
 				continue
+			}
+			// a named boolean stands for its definition (`expired := ok && now-b.lastUse > max; if expired {`)
+			negate := false
+			var named types.Object
+			{
+				ce := ast.Unparen(cond)
+				if u, ok := ce.(*ast.UnaryExpr); ok && u.Op == token.NOT {
+					ce, negate = ast.Unparen(u.X), true
+				}
+				if id, ok := ce.(*ast.Ident); ok {
+					if o, ok := info.Uses[id].(*types.Var); ok && !o.IsField() && isBoolType(o.Type()) {
+						if def, n := localDef(info, fi.Decl.Body, o); n == 1 && def != nil && isBoolType(info.TypeOf(def)) {
+							cond = def
+							named = o
+						} else {
+							negate = false
+						}
+					} else {
+						negate = false
+					}
+				} else {
+					negate = false
+				}
 			}
 			mentionsBucketStamp := false
 			var scan func(e ast.Node, depth int)
@@ -543,8 +665,8 @@ func checkC19(c *Check) {
 			if !mentionsBucketStamp {
 				continue
 			}
-			vs, ok1 := timeWorldEval(info, cond, 250)
-			vf, ok2 := timeWorldEval(info, cond, 5)
+			vs, ok1 := timeWorldEvalPartial(info, cond, 250, 5, true)
+			vf, ok2 := timeWorldEvalPartial(info, cond, 250, 5, false)
 			key := fi.Name() + ":" + exprStr(cond)
 			if !ok1 || !ok2 {
 				c.Hold("R3", key, cond.Pos(), false, "undecided: staleness comparison could not be evaluated")
@@ -553,6 +675,9 @@ func checkC19(c *Check) {
 			if vs == vf {
 				c.Hold("R3", key, cond.Pos(), false, "the staleness comparison has the same outcome for a fresh and a stale bucket")
 				continue
+			}
+			if negate {
+				vs, vf = !vs, !vf
 			}
 			// the edge taken in the stale world must reach a close of the bucket channel before the loop continues; the fresh edge must not
 			staleSucc, freshSucc := 1, 0
@@ -574,6 +699,27 @@ func checkC19(c *Check) {
 				return f
 			}
 			okDir := reachesClose(staleSucc) && !reachesClose(freshSucc)
+			if named != nil {
+				// several branches may test the same name (evict under the lock, drain after it): one of them must evict on
+				// the stale edge, none may evict on the fresh edge
+				g := namedDir[named]
+				if g == nil {
+					g = &struct {
+						key        string
+						pos        token.Pos
+						evicts, no bool
+					}{key: key, pos: cond.Pos()}
+					namedDir[named] = g
+					namedOrder = append(namedOrder, named)
+				}
+				if okDir {
+					g.evicts = true
+				}
+				if reachesClose(freshSucc) {
+					g.no = true
+				}
+				continue
+			}
 			c.Hold("R3", key, cond.Pos(), okDir, "staleness comparison has the wrong direction: the stale bucket is kept and/or the fresh one is evicted")
 		}
 	}
